@@ -1,5 +1,5 @@
 CONSTANTS
-  Part = "names"
+  Parts = {"names"}
   MaxE = 6
   MaxUnits = 0
   MaxGlyphs = 0
